@@ -3,14 +3,17 @@ import copy, itertools, random
 from .. import core, gen, ref
 from . import cu
 
-MODULES = ['DsdVerif.Props.C09']
-GEN_FILES = []
+MODULES = ['DsdVerif.Props.C09', 'DsdVerif.Props.PyFuncs']
+GEN_FILES = ['PyFuncs']
 THEOREM_NAMES = ['split_spec', 'split_connected_id', 'split_fuel_mono', 'split_parts_wellformed',
                  # object level (World model): Props/C09Obj.lean
                  'splitC_connected_self', 'splitC_no_fault', 'splitC_components', 'splitC_twice', 'splitC_refusal_reason',
                  'inv_empty', 'inv_mkDom', 'inv_mkCplx', 'inv_mkCplxByNames', 'inv_splitC', 'inv_setTurns', 'inv_queryC', 'inv_collect',
                  'inv_drop']
-THEOREMS = ['Dsd.C09.' + t for t in THEOREM_NAMES]
+THEOREMS = ['Dsd.C09.' + t for t in THEOREM_NAMES] + ['Dsd.PyFuncs.' + t for t in [
+    # split_complex_pt as written in the source (Gen/PyFuncs.lean, regenerated on every run): generator, recursion, splice, seen dict
+    'py_split_complex_pt_eq', 'py_split_complex_pt_eq_lm', 'py_split_of_py_pair_table', 'py_split_spec', 'py_split_malformed_faults',
+    'py_make_loop_index_eq', 'py_make_pair_table_eq']]
 ASSUMPTIONS = [
     'split_complex_pt is hand-modelled (Model/Complex.lean: splitScan, splice, splitPt with fuel = number of strands + 1) and tied to '
     'the code by the correspondence stream `split`',
@@ -33,7 +36,8 @@ MANIFEST = {
             'splitC_connected_self (a connected complex yields itself unless the next automatic name is bound to another complex - the '
             'behaviour pinned by test_split_exception; counterexample kept), splitC_refusal_reason (a refusal happens only when the '
             'automatic name needed is bound to a live complex of another rotation class; the handles held before are exactly those '
-            'held afterwards). The same contract is checked on the real code over every subset of pre-existing components.',
+            'held afterwards). The same contract is checked on the real code over every subset of pre-existing components.'
+            ' STATEMENT LEVEL, FROM THE SOURCE: split_complex_pt - the recursive generator with its nested splice(), the seen dict, break, asserts and the call of make_loop_index - is transcribed statement by statement from the working tree (translator/pyfunc.py -> Gen/PyFuncs.lean: generators as lists, recursion on an explicit fuel, checked subtraction) and proved equal to the model for every table make_pair_table returns and every strand table (py_split_complex_pt_eq, under the splice-closed invariant py_split_complex_pt_eq_lm), so the main theorem holds of the code as written (py_split_spec: the parts are sub-complexes on index sets that partition the strands, every part connected); py_split_malformed_faults shows the hypothesis is needed; the transcription is run against the implementation on every generated input.',
     'note': 'Object-level theorems are about World.splitC, tied to ComplexS.split() by correspondence; trusted base as in DESIGN.md 3.',
     'technique': 'Lean 4 proof by strong induction on the number of strands (splice preserves well-formed matchings); correspondence check; union-find oracle',
 }
@@ -421,6 +425,7 @@ def run(res, proof):
         core.compare_streams(res, 'complex_utils.split', lines, impl, model)
     except core.DriverBroken as e:
         proof.problem('driver', str(e))
+    cu.source_derived_stream(res, proof, 'complex_utils.split.source-derived', ops, impl)
     for op in ops[::max(1, len(ops) // 8)]:
         res.sample('\t'.join(op))
 
